@@ -657,13 +657,18 @@ def gen_hist(rng, n):
             c = rng.random()
             if c < 0.55:
                 steps.append({"op": "query", "what": rng.choice(["circle", "contains", "intersects", "fs", "inside"])})
-            elif c < 0.8:
+            elif c < 0.7:
                 steps.append({"op": "setitem", "i": rng.randrange(k), "disk": mk(), "complement": rng.random() < 0.3})
-            else:
+            elif c < 0.78:
                 steps.append({"op": "inplace", "i": rng.randrange(k), "disk": mk()})
+            else:
+                steps.append({"op": rng.choice(["transform", "copy", "flatten", "complement", "mutate_returned", "other", "set"]),
+                              "M": [[rng.gauss(0, 1), rng.gauss(0, 1)] for _ in range(4)]})
         steps.append({"op": "query", "what": "circle"})
         steps.append({"op": "query", "what": rng.choice(["contains", "intersects", "fs"])})
-        yield {"disks": disks, "other": other, "steps": steps, "scale": [math.exp(rng.uniform(-28, 28)), rng.uniform(0, 2 * math.pi)],
+        yield {"disks": disks, "other": other, "unrelated": [mk() for _ in range(k)], "order": rng.choice(["AB", "BA"]),
+               "dtypes": [rng.choice(["complex128", "complex64", "float64", "int"]) for _ in range(2)],
+               "steps": steps, "scale": [math.exp(rng.uniform(-28, 28)), rng.uniform(0, 2 * math.pi)],
                "M": [[rng.gauss(0, 1), rng.gauss(0, 1)] for _ in range(4)], "fs_r": rng.uniform(0.05, 0.7),
                "hom": [rng.gauss(0, 1) or 1.0, rng.gauss(0, 1)]}
 
@@ -691,7 +696,16 @@ def _query(D_, O_, what):
 
 def run_hist(inp):
     res = {}
-    D_ = _arr_disk(inp["disks"])
+    cin = np.array([complex(*d["c"]) for d in inp["disks"]])
+    rin = np.array([d["r"] for d in inp["disks"]])
+    snap = (cin.copy(), rin.copy())
+    if inp.get("order", "AB") == "AB":
+        D_ = CP.CP1Disk(cin, rin)
+        U_ = _arr_disk(inp.get("unrelated", inp["other"]))      # an unrelated object of the same class (G3)
+    else:
+        U_ = _arr_disk(inp.get("unrelated", inp["other"]))
+        D_ = CP.CP1Disk(cin, rin)
+    res["inputs_kept"] = 0.0 if (np.array_equal(cin, snap[0]) and np.array_equal(rin, snap[1])) else 1.0
     O_ = _arr_disk(inp["other"])
     worst = 0.0
     where = None
@@ -708,10 +722,69 @@ def run_hist(inp):
             if st["complement"]:
                 nd = nd.complement()
             D_[st["i"]] = nd[0]
-        else:
+        elif st["op"] == "inplace":
             nd = CP.CP1Disk(np.array([complex(*st["disk"]["c"])]), np.array([st["disk"]["r"]]))
             D_.proj_data[st["i"]] = nd.proj_data[0]
+        elif st["op"] == "transform":
+            Mh = np.array([[complex(*st["M"][0]), complex(*st["M"][1])], [complex(*st["M"][2]), complex(*st["M"][3])]])
+            if abs(np.linalg.det(Mh)) > 0.3:
+                keep = Mh.copy()
+                D_ = P.Transformation(Mh) @ D_                    # continue with the IMAGE
+                if not np.array_equal(keep, Mh):
+                    res["matrix_kept"] = 1.0
+        elif st["op"] == "copy":
+            from copy import copy as _copy
+            D_ = _copy(D_)
+        elif st["op"] == "flatten":
+            D_ = D_.flatten_to_unit()
+        elif st["op"] == "complement":
+            D_ = D_.complement()
+        elif st["op"] == "set":
+            D_.set(np.array(U_.proj_data, copy=True)) if D_.proj_data.shape == U_.proj_data.shape else None
+        elif st["op"] == "mutate_returned":
+            c_, r_ = D_.circle_parameters()
+            for v_ in (c_, r_, D_.center_inside(), D_.fs_diameter()):
+                if isinstance(v_, np.ndarray) and v_.flags.writeable:
+                    v_[...] = 7
+        elif st["op"] == "other":
+            for w_ in ("circle", "inside", "contains", "fs"):
+                _query(U_, O_, w_)
+        if st["op"] != "query":
+            got = _query(D_, O_, "circle")
+            want = _query(CP.CP1Disk(np.array(D_.proj_data, copy=True)), _arr_disk(inp["other"]), "circle")
+            e = err(got, want)
+            if e > worst:
+                worst, where = e, [n_, st["op"]]
     res["history"] = worst
+    eU = max(err(_query(U_, O_, w_), _query(_arr_disk(inp.get("unrelated", inp["other"])), _arr_disk(inp["other"]), w_)) for w_ in ("circle", "inside", "fs"))
+    res["unrelated_object"] = eU if not any(s_["op"] == "set" for s_ in inp["steps"]) or True else 0.0
+    # G2: tuples / lists / non-contiguous views for centre and radius
+    big_ = np.zeros(2 * len(cin), dtype=complex); big_[::2] = snap[0]
+    for nm, (cc_, rr_) in (("list", (list(snap[0]), list(snap[1]))), ("tuple", (tuple(snap[0]), tuple(snap[1]))), ("view", (big_[::2], snap[1][::-1][::-1]))):
+        dd = CP.CP1Disk(cc_, np.asarray(rr_) if nm != "view" else rr_)
+        c1, r1 = dd.circle_parameters()
+        res["container_" + nm] = max(err(np.asarray(c1, float), np.stack([snap[0].real, snap[0].imag], -1)), err(np.asarray(r1, float), snap[1]))
+    # G4: centres / radii of other dtypes (rounded to representable values), both orders of combination
+    d1, d2 = inp.get("dtypes", ["complex128", "complex128"])
+    cq = np.round(snap[0] * 4) / 4
+    rq = np.round(snap[1] * 4) / 4 + 0.25
+    def castc(a, d):
+        return (np.round(a.real).astype(int) if d == "int" else (a.real.astype(d) if d.startswith("float") else a.astype(d)))
+    ref_c = lambda d: (np.round(cq.real) + 0j) if d == "int" else ((cq.real + 0j) if d.startswith("float") else cq)
+    for nm, dd_ in (("dtype_centre_1", d1), ("dtype_centre_2", d2)):
+        dk = CP.CP1Disk(castc(cq, dd_), rq.astype("float32") if nm.endswith("1") else rq)
+        c1, r1 = dk.circle_parameters()
+        rc = ref_c(dd_)
+        res[nm] = max(err(np.asarray(c1, float), np.stack([rc.real, rc.imag], -1)), err(np.asarray(r1, float), rq)) / 1e2
+    pa = CP.CP1Point(castc(cq[:1], d1), coords="cx_affine")
+    pb = CP.CP1Point(castc(cq[1:2], d2), coords="cx_affine")
+    for nm, pair in (("dtype_order_12", [pa, pb]), ("dtype_order_21", [pb, pa])):
+        try:
+            comb = CP.CP1Point(pair)
+            want = np.concatenate([np.asarray(q_.spherical_coords(), float).reshape(-1, 3) for q_ in pair])
+            res[nm] = err(np.asarray(comb.spherical_coords(), float).reshape(-1, 3), want) / 1e2
+        except Exception as ex:  # noqa: BLE001
+            res[nm] = float("inf")
     res["history_where"] = where
     # overall scales: points, disks and matrices multiplied by tiny / huge complex scalars describe the same objects
     sc = inp["scale"][0] * cmath.exp(1j * inp["scale"][1])
